@@ -219,11 +219,17 @@ def doc_violations(rng, n):
 
 
 def search(hints, tier, rng):
-    return doc_violations(rng, 20 if tier == "quick" else 200)[:5]
+    from props import oracles
+    # Planar computes x + u_hat*act(w.x+b) for every positive leaky-relu slope (also > 1) and for tanh
+    wit = [w for w in oracles.planar_violations(rng, 36 if tier == "quick" else 300) if w["law"].startswith("Planar computes")]
+    return (wit + doc_violations(rng, 20 if tier == "quick" else 200))[:5]
 
 
 def replay(w):
     import random
+    if w.get("kind") == "planar":
+        from props import oracles
+        return bool(oracles.replay_witness(w))
     # re-run the reference comparison for the recorded description on fresh draws plus the recorded input
     toks = w.get("tokens")
     if toks and toks[0] in ("A", "L", "S", "E", "P", "T", "K", "Q"):
